@@ -553,6 +553,7 @@ class Run:
     def stmt(self, st):
         if isinstance(st, ast.Expr) and isinstance(st.value, ast.Constant) and isinstance(st.value.value, str):
             return
+        st = tnum.plain_assign(st)
         if isinstance(st, ast.Assign):
             return self.assign(st)
         if isinstance(st, ast.AugAssign):
@@ -625,10 +626,11 @@ class Run:
         if len(items) != len(z.shape):
             raise Bad(f"{txt}: {len(items)} indices for a {len(z.shape)}-D array")
         if all(isinstance(it, ast.Slice) for it in items):
-            for it, a in zip(items, self.axes()):
+            for it, a, L in zip(items, self.axes(), z.shape):
                 if it.step is not None or it.lower is None or it.upper is None:
                     raise Bad(f"{txt}: slice")
-                lo, hi = self.ev(it.lower), self.ev(it.upper)
+                # a negative constant bound counts from the end of THIS array (length L): `1:-1` is `1:L-1`
+                lo, hi = self.int_item(it.lower, L), self.int_item(it.upper, L)
                 if lo != ONE or hi != N(a) + ONE:
                     raise Bad(f"{txt}: the slice along {a} is not 1:N+1")
             return ("interior",)
@@ -670,6 +672,12 @@ class Run:
         elif len(st.orelse) == 1 and isinstance(st.orelse[0], ast.If):
             self.exec_if(st.orelse[0])
         else:
+            if self.role == ROWS and st.orelse:
+                # a plain `else:` is taken exactly when the `if` test fails: its guard is the negated test
+                ekey, etxt = (axis, else_label), g_lean(("not", g))
+                if self.guards.get(ekey, etxt) != etxt:
+                    raise Bad(f"two different tests for the {else_label} branch of axis {axis}")
+                self.guards[ekey] = etxt
             self.ctx.append(("axis", axis, else_label))
             self.block(st.orelse)
             self.ctx.pop()
@@ -861,8 +869,7 @@ class Run:
 
     @staticmethod
     def is_newaxis(it):
-        return isinstance(it, ast.Attribute) and isinstance(it.value, ast.Name) and it.value.id == "np" \
-            and it.attr == "newaxis"
+        return tnum.is_newaxis(it)          # `np.newaxis` or the literal `None`
 
     def basic_index(self, arr, items, txt):
         dims, maps = [], []
@@ -965,6 +972,11 @@ class Run:
             if not nonneg(b - a):
                 raise Bad(f"int_range({a}, {b}) may be empty (raises)")
             return Rng(a, b - a + ONE)
+        if isinstance(f, ast.Attribute) and f.attr == "copy" and not node.args and not node.keywords:
+            v = self.ev(f.value)
+            if isinstance(v, Arr) and v.kind == "num":
+                return v            # `x.copy()` / a value: arrays are immutable values here (no in-place store to them)
+            raise Bad(".copy() of a non-array")
         if isinstance(f, ast.Attribute) and f.attr in ("ravel", "item") and not node.args and not node.keywords:
             v = self.ev(f.value)
             if not isinstance(v, Arr):
@@ -1023,6 +1035,15 @@ class Run:
             return ZArr(shp, name)
         if node.keywords:
             raise Bad(f"np.{name} with keywords")
+        if name == "arange" and len(args) in (1, 2):
+            # np.arange(a, b) = a .. b-1 = int_range(a, b-1); np.arange(b) = 0 .. b-1 (integers only, no step)
+            a = ZERO if len(args) == 1 else self.ev(args[0])
+            b = self.ev(args[-1])
+            if not (isinstance(a, Poly) and isinstance(b, Poly)):
+                raise Bad("np.arange of non-integers")
+            if not nonneg(b - a - ONE):
+                raise Bad(f"np.arange({a}, {b}) may be empty")
+            return Rng(a, b - a)
         if name == "sin" and len(args) == 1:
             v = self.as_num(self.ev(args[0]))
 
@@ -1042,10 +1063,24 @@ class Run:
             if isinstance(v, CellSet):
                 return v.size
             raise Bad("np.size of something else than the edge / corner cells")
-        if name == "hstack" and len(args) == 1 and isinstance(args[0], (ast.List, ast.Tuple)):
+        if name in ("hstack", "concatenate") and len(args) == 1 and isinstance(args[0], (ast.List, ast.Tuple)):
             if self.role != GHOST or self.nd != 1:
-                raise Bad("np.hstack outside the 1-D ghost function")
-            parts = [self.ev(e) for e in args[0].elts]
+                raise Bad(f"np.{name} outside the 1-D ghost function")
+            elts = list(args[0].elts)
+            if name == "concatenate":
+                # np.concatenate (default axis, no keywords) of 1-D blocks = np.hstack; it refuses 0-d operands, so a
+                # scalar must be wrapped as a one-element list `[s]` (np.hstack does that itself with atleast_1d)
+                for n, e in enumerate(elts):
+                    if isinstance(e, (ast.List, ast.Tuple)) and len(e.elts) == 1:
+                        inner = self.ev(e.elts[0])
+                        if not (isinstance(inner, Arr) and inner.kind == "num" and not inner.dims):
+                            raise Bad("np.concatenate: a one-element list of a non-scalar")
+                        elts[n] = e.elts[0]
+                    else:
+                        v = self.ev(e)
+                        if not (isinstance(v, Arr) and v.kind == "num" and len(v.real_dims()) == 1 and len(v.dims) == 1):
+                            raise Bad("np.concatenate: operand is neither a 1-D array nor a one-element list `[scalar]`")
+            parts = [self.ev(e) for e in elts]
             if len(parts) != 3 or not all(isinstance(p, Arr) and p.kind == "num" for p in parts):
                 raise Bad("np.hstack: expected [scalar, phi, scalar]")
             lo, mid, hi = parts
@@ -1056,10 +1091,15 @@ class Run:
         raise Bad(f"call np.{name}")
 
     def csr(self, node):
-        if len(node.args) != 1 or [k.arg for k in node.keywords] != ["shape"]:
+        # csr_array(arg1, shape=None, ...): the shape is the keyword `shape` or the second positional argument
+        if len(node.args) == 2 and not node.keywords:
+            shp_node = node.args[1]
+        elif len(node.args) == 1 and [k.arg for k in node.keywords] == ["shape"]:
+            shp_node = node.keywords[0].value
+        else:
             raise Bad("csr_array: expected csr_array((vals, (rows, cols)), shape=...)")
         a = self.ev(node.args[0])
-        shp = self.ev(node.keywords[0].value)
+        shp = self.ev(shp_node)
         if not (isinstance(a, Tup) and len(a.items) == 2 and isinstance(a.items[1], Tup) and len(a.items[1].items) == 2):
             raise Bad("csr_array: argument structure")
         vals, (rows, cols) = a.items[0], a.items[1].items
@@ -1575,7 +1615,7 @@ def generate(repo):
     src = os.path.join(repo, "src", "pyfvtool")
 
     def parse(f):
-        return ast.parse(open(os.path.join(src, f)).read())
+        return tnum.note_module(ast.parse(open(os.path.join(src, f)).read()))
     status, out = {}, [HEADER]
     mesh = MeshInfo(parse("mesh.py"))
     tree = parse("boundary.py")
